@@ -5,6 +5,7 @@ import (
 	"errors"
 	"fmt"
 	"math/rand"
+	"strings"
 
 	"github.com/ClickHouse/ch-go/proto"
 
@@ -267,7 +268,15 @@ func c14(r *core.Run) {
 	}
 	// path equivalence: WriteColumn+Flush == EncodeColumn (after Prepare / with state)
 	for ei, e := range val.Catalogue {
-		for _, rows := range []int{0, 1, 9, 130} {
+		rowsList := []int{0, 1, 9, 130}
+		if strings.Contains(e.Type, "LowCardinality") {
+			// dictionaries that need 16-bit keys (300 and, thorough, 70000 distinct values: 32-bit keys)
+			rowsList = append(rowsList, 600)
+			if !r.Quick() {
+				rowsList = append(rowsList, 140000)
+			}
+		}
+		for _, rows := range rowsList {
 			ci++
 			if !r.Take(ci) {
 				continue
@@ -275,7 +284,7 @@ func c14(r *core.Run) {
 			t, _ := ref.ParseType(e.Type)
 			rng := r.Rand(ci, "col")
 			lc := e.New()
-			vals := val.GenColumn(rng, t, rows, val.GenOpt{BigStr: rows == 9})
+			vals := val.GenColumn(rng, t, rows, val.GenOpt{BigStr: rows == 9, Dict: rows / 2})
 			cs := map[string]any{"type": e.Type, "kind": e.Kind, "rows": rows}
 			r.Eval()
 			if p := core.Recover(func() {
